@@ -180,7 +180,10 @@ def run_concurrent(world, commands, rng=None, choices=None, policy="random", fau
                 stalled = True
                 break
             continue
-        allreq = [(pt, c, r, at) for pt in sorted(live, key=lambda p: p.label) for (c, r, at) in pt.parked]
+        # (two activities of one process may park in either order while both run: order them by what they ask for)
+        allreq = [(pt, c, r, at) for pt in sorted(live, key=lambda p: p.label)
+                  for (c, r, at) in sorted(pt.parked, key=lambda x: (point_name(x[1]) or "", json.dumps(x[1].get("argv") or []),
+                                                                     x[1].get("occ") or 0))]
         if not allreq:
             accept_all(0.005)
             if time.time() - t_last > STALL_S:
